@@ -154,8 +154,13 @@ reg("quantile_overwrite", 1, lambda rng, vs: (rng.choice([0.25, 0.5]), _ax(rng, 
     needs=lambda vs: vs[0].ndim >= 1 and nonempty(vs) and vs[0].dtype.kind in "iu")
 reg("median", 1, lambda rng, vs: (_ax(rng, vs[0]), rng.random() < 0.5), lambda vs, p: np.median(vs[0], axis=p[0], keepdims=p[1]),
     lambda da, xs, p: da.median(xs[0], axis=p[0], keepdims=p[1]), needs=lambda vs: vs[0].ndim >= 1 and nonempty(vs) and vs[0].dtype.kind in "iu")
-reg("percentile_1d", 1, lambda rng, vs: (rng.choice([0, 50, 100]),), lambda vs, p: np.percentile(vs[0], [p[0]], method="nearest"),
-    lambda da, xs, p: da.percentile(xs[0].rechunk(-1), [p[0]], method="nearest"), needs=lambda vs: vs[0].ndim == 1 and vs[0].size > 0 and vs[0].dtype.kind in "iu")
+reg("percentile_1d", 1, lambda rng, vs: (rng.choice([0, 50, 100]), rng.choice(["nearest", "lower", "higher", "midpoint", "linear"])),
+    lambda vs, p: np.percentile(vs[0], [p[0]], method=p[1]),
+    lambda da, xs, p: da.percentile(xs[0].rechunk(-1), [p[0]], method=p[1]), needs=lambda vs: vs[0].ndim == 1 and vs[0].size > 0 and vs[0].dtype.kind in "iu")
+reg("percentile_1d_f4", 1, lambda rng, vs: (rng.choice([0, 50, 100]), rng.choice(["nearest", "lower", "higher", "midpoint", "linear"])),
+    lambda vs, p: np.percentile(vs[0].astype("float32"), [p[0]], method=p[1]),
+    lambda da, xs, p: da.percentile(xs[0].astype("float32").rechunk(-1), [p[0]], method=p[1]),
+    needs=lambda vs: vs[0].ndim == 1 and vs[0].size > 0 and vs[0].dtype.kind in "iu")
 def _topk_params(rng, vs):
     k, ax = rng.choice([1, 2, -1, -2]), _ax(rng, vs[0])
     return (k, ax) if abs(k) <= vs[0].shape[ax] else None      # known finding F36: k beyond the axis length advertises k rows
